@@ -34,7 +34,7 @@ def _validate_batch(batch_id, traces, scratch):
     mod, cfg = mcgen.write_mc(
         scratch, "SimTrace", {"TraceFile": path}, name=f"MC_SimTrace_{batch_id}", invariants=["Done"], spec="Spec"
     )
-    r = tlc.run_tlc(mod, cfg, workers=1, coverage=False, java_opts=mcgen.LIB_OPT, timeout=1800)
+    r = tlc.run_tlc(mod, cfg, workers=1, coverage=False, java_opts=mcgen.LIB_OPT + ["-Xss128m"], timeout=1800)
     viols, done = [], {}
     for v in tlaval.extract_tagged(r.stdout, "@@V"):
         viols.append((v[1], v[2], sorted(v[3], key=repr)))
